@@ -46,17 +46,6 @@ Definition exact_layer_ok (c : ncase) (K' : N) (es' : list Q) : bool :=
 
 Definition model_of (c : ncase) : npres := np_edges (c_rule c) (c_kind c) (c_n c) (c_lo c) (c_hi c).
 
-Definition ok_case (c : ncase) : bool :=
-  match model_of c, c_obs c with
-  | NpOk K es, ObsOk K' es' => (K =? K')%N && all_eq es es' && exact_layer_ok c K' es'
-  | NpErr _, ObsValueError => true
-  | NpUnmodelled, ObsOk _ _ => true          (* counted below; the model makes no claim *)
-  | _, _ => false
-  end.
-
-Definition is_err (c : ncase) : bool := match model_of c with NpErr _ => true | _ => false end.
-Definition is_unmodelled (c : ncase) : bool :=
-  match model_of c with NpUnmodelled => true | _ => false end.
 (* numpy's number of bins differs from the mathematical one *)
 Definition is_inexact (c : ncase) : bool :=
   match c_obs c with
@@ -66,8 +55,28 @@ Definition is_inexact (c : ncase) : bool :=
   | _ => false
   end.
 
+(* the model is evaluated once per case: (agrees, model says ValueError, outside the model, inexact) *)
+Definition verdict (c : ncase) : bool * bool * bool * bool :=
+  match model_of c, c_obs c with
+  | NpOk K es, ObsOk K' es' =>
+      ((K =? K')%N && all_eq es es' && exact_layer_ok c K' es', false, false, is_inexact c)
+  | NpOk _ _, _ => (false, false, false, false)
+  | NpErr _, ObsValueError => (true, true, false, false)
+  | NpErr _, _ => (false, true, false, false)
+  | NpUnmodelled, ObsOk _ _ => (true, false, true, is_inexact c)   (* the model makes no claim *)
+  | NpUnmodelled, _ => (false, false, true, false)
+  end.
+
+Definition ok_case (c : ncase) : bool := fst (fst (fst (verdict c))).
+
+Definition v_ok (v : bool * bool * bool * bool) : bool := fst (fst (fst v)).
+Definition v_err (v : bool * bool * bool * bool) : bool := snd (fst (fst v)).
+Definition v_unm (v : bool * bool * bool * bool) : bool := snd (fst v).
+Definition v_inexact (v : bool * bool * bool * bool) : bool := snd v.
+
 (* (disagreeing indices, #cases, #ValueError cases, #cases outside the model,
-    #cases where numpy has one bin more than the exact rule) *)
+    #cases where numpy's number of bins is not that of the exact rule) *)
 Definition summary (cs : list ncase) :=
-  (bad_indices ok_case cs, List.length cs, count_true is_err cs, count_true is_unmodelled cs,
-   count_true is_inexact cs).
+  let vs := map verdict cs in
+  (bad_indices v_ok vs, List.length vs, count_true v_err vs, count_true v_unm vs,
+   count_true v_inexact vs).
